@@ -523,7 +523,14 @@ func (o *origin) RoundTrip(req *http.Request) (*http.Response, error) {
 		return finishErr(ctx.Err())
 	}
 	if rp.LatencyNs > 0 {
-		tm := time.NewTimer(time.Duration(rp.LatencyNs))
+		lat := rp.LatencyNs
+		if !fg {
+			// Background calls complete a few (serial) nanoseconds after the whole second: two
+			// background calls, or a background call and the sequential client's next step, never
+			// become runnable at the same virtual instant, so every scenario has one outcome.
+			lat += int64(serial)
+		}
+		tm := time.NewTimer(time.Duration(lat))
 		select {
 		case <-tm.C:
 		case <-ctx.Done():
@@ -710,6 +717,8 @@ func ScratchRoot() string { return scratchRoot }
 
 func CleanScratch() { _ = os.RemoveAll(scratchRoot) }
 
+const maxSleep = 5 * 365 * 24 * time.Hour
+
 const encKey = "6S-Ks2YYOW0xMvTzKSv6QD30gZeOi1c6Ydr-As5csWk="
 
 func (w *World) openInner() error {
@@ -841,7 +850,11 @@ func (w *World) run() {
 	for si, st := range sc.Steps {
 		switch st.Op {
 		case "sleep":
-			time.Sleep(time.Duration(st.DurNs))
+			d := time.Duration(st.DurNs)
+			if d > maxSleep {
+				d = maxSleep // clock horizon: virtual nanotime must stay far from 2^63
+			}
+			time.Sleep(d)
 		case "reopen":
 			if err := w.openInner(); err != nil {
 				obs.Fatal = "reopen backend: " + err.Error()
@@ -860,6 +873,10 @@ func (w *World) run() {
 				cancels = append(cancels, c)
 			}
 		}
+		// let everything that can run at this virtual instant finish (background work with
+		// zero latency, timers that fired together with the end of a sleep): the sequential
+		// client then observes a deterministic state
+		synctest.Wait()
 		ks, sz := w.liveKeys()
 		obs.Keys = append(obs.Keys, ks)
 		obs.KeySizes = append(obs.KeySizes, sz)
